@@ -94,8 +94,10 @@ def recipes():
         for cc in kn.Concavity:
             R["kneedle.differences[%s,%s]" % (cd, cc)] = (kn.differences, (lambda cd, cc: lambda W: ([W.P, cd, cc], {}))(cd, cc))
     for p in kn.PeakDetection:
-        R["kneedle.knees[%s]" % p] = (kn.knees, (lambda p: lambda W: ([W.P, 1.0, 1.0, p], {}))(p))
-    add(kn, "knee", lambda W: ([W.P, 1.0], {}))
+        for t in (1.0, 0.0, 2.5):          # smoothing window incl. the "no smoothing" boundary value
+            R["kneedle.knees[%s,t=%s]" % (p, t)] = (kn.knees, (lambda p, t: lambda W: ([W.P, t, 1.0, p], {}))(p, t))
+    for t in (1.0, 0.0):
+        R["kneedle.knee[t=%s]" % t] = (kn.knee, (lambda t: lambda W: ([W.P, t], {}))(t))
     add(kn, "multi_knee", lambda W: ([W.P, 0.01, 3], {}))
     add(lf, "linear_fit_points", lambda W: ([W.P], {}))
     add(lf, "linear_fit", lambda W: ([W.x, W.y], {}))
@@ -117,7 +119,7 @@ def recipes():
         add(lf, nm, lambda W: ([W.x, W.y, W.coef], {}))
     add(lf, "linear_fit_residuals_points", lambda W: ([W.P], {}))
     add(lf, "linear_fit_residuals", lambda W: ([W.x, W.y], {}))
-    add(lf, "angle", lambda W: ([W.coef, (1.0, 0.5)], {}))
+    add(lf, "angle", lambda W: ([W.coef, (1.0, 0.25)], {}))
     add(lf, "cross2d", lambda W: ([W.P - W.P[0], W.P[3] - W.P[0]], {}))
     add(lf, "shortest_distance_points", lambda W: ([W.P, W.P[0], W.P[-1]], {}))
     add(lf, "perpendicular_distance", lambda W: ([W.P], {}))
